@@ -34,6 +34,10 @@ FUNCS = {
     "posdef_ke": B + ("DM", "PTS"), "general_ke": B + ("DM", "PTS"), "stress": B + ("DM", "PTS"), "force": B + ("DM", "PTS"),
     "ehess": B + ("DM", "PTS"), "esp": B + ("DM", "PTS", "NUCC", "CHG"),
     "make_contractions": ("CT", "MCOORD"), "parse_nwchem": (), "generate_transformation": (),
+    # methods of LONG-LIVED integral / evaluation objects (created once per behaviour, asked again and again): they answer as
+    # the public function of the same name does (Session!Canon)
+    "inst_overlap": B, "inst_kinetic": B, "inst_momentum": B, "inst_angmom": B, "inst_moment": B + ("ORG", "ORD"),
+    "inst_point_charge": B + ("NUCC", "CHG"), "inst_eval_basis": B + ("PTS",),
     # deliberately invalid requests: every one must raise and still leave everything untouched
     "bad_moment_orders": B + ("ORG",), "bad_density_shape": B + ("PTS",), "bad_esp_threshold": B + ("DM", "PTS", "NUCC", "CHG"),
     "bad_points": B + ("DM",), "bad_make_contractions": ("CT", "MCOORD"), "bad_direct_order": B + ("PTS",),
@@ -42,13 +46,22 @@ FUNCS = {
     "bad_set_coeffs": ("S1",), "bad_set_exps": ("S2",), "bad_set_coord": ("S3",), "bad_set_angmom": ("S1",),
 }
 RAISES = sorted(f for f in FUNCS if f.startswith("bad_"))
+CANON = {f: (f[5:] if f.startswith("inst_") else f) for f in FUNCS}
+INST = {"inst_overlap": ("gbasis.integrals.overlap", "Overlap"), "inst_kinetic": ("gbasis.integrals.kinetic_energy", "KineticEnergyIntegral"),
+        "inst_momentum": ("gbasis.integrals.momentum", "MomentumIntegral"), "inst_angmom": ("gbasis.integrals.angular_momentum", "AngularMomentumIntegral"),
+        "inst_moment": ("gbasis.integrals.moment", "Moment"), "inst_point_charge": ("gbasis.integrals.point_charge", "PointChargeIntegral"),
+        "inst_eval_basis": ("gbasis.evals.eval", "Eval")}
+
+
+def canon_tla():
+    return "[" + ", ".join("%s |-> \"%s\"" % (f, c) for f, c in CANON.items()) + "]"
 MAXV = 3
 
 
 def constants_module(d, name, pop):
     args = "[" + ", ".join("%s |-> %s" % (f, tlc.tla_value(list(a))) for f, a in FUNCS.items()) + "]"
-    body = ("\nVARIABLES val, npErr, memo, last\nMCArgs == %s\nINSTANCE Session WITH Shells <- %s, Arrays <- %s, Lists <- %s,\n"
-            "  Funcs <- %s, ArgsOf <- MCArgs, RaisesF <- %s, MaxVersions <- %d, PopVariant <- %s\n"
+    body = ("\nVARIABLES val, npErr, memo, last\nMCCanon == " + canon_tla() + "\nMCArgs == %s\nINSTANCE Session WITH Shells <- %s, Arrays <- %s, Lists <- %s,\n"
+            "  Funcs <- %s, ArgsOf <- MCArgs, RaisesF <- %s, MaxVersions <- %d, PopVariant <- %s, Canon <- MCCanon\n"
             % (args, tlc.tla_value(set(SHELLS)), tlc.tla_value(set(ARRAYS)), tlc.tla_value(set(LISTS)),
                tlc.tla_value(set(FUNCS)), tlc.tla_value(set(RAISES)), MAXV, "TRUE" if pop else "FALSE"))
     tlc.write_module(d, name, body, extends=("Integers", "Sequences", "TLC"))
@@ -59,7 +72,7 @@ def run_small_model(ctx, pop):
     body = ('\nVARIABLES val, npErr, memo, last\nMCArgs == [overlap |-> <<"S1", "S2">>, density |-> <<"A1", "S1", "A2">>, '
             'make |-> <<"L1", "A1">>, bad |-> <<"A2">>]\nINSTANCE Session WITH Shells <- {"S1", "S2"}, Arrays <- {"A1", "A2"}, '
             'Lists <- {"L1"}, Funcs <- {"overlap", "density", "make", "bad"}, ArgsOf <- MCArgs, RaisesF <- {"bad"}, MaxVersions <- 2, '
-            'PopVariant <- %s\nDepth == TLCGet("level") <= 7\n' % ("TRUE" if pop else "FALSE"))
+            'Canon <- [overlap |-> "overlap", density |-> "density", make |-> "make", bad |-> "bad"], PopVariant <- %s\nDepth == TLCGet("level") <= 7\n' % ("TRUE" if pop else "FALSE"))
     tlc.write_module(d, "MC_S", body, extends=("Integers", "Sequences", "TLC"))
     cfg = "SPECIFICATION Spec\nINVARIANT AfterAssign\nINVARIANT ErrStateKept\nPROPERTY Purity\nPROPERTY MemoStable\nCONSTRAINT Depth\n"
     res = tlc.run(d, "MC_S", cfg, workers=8, timeout=1800)
@@ -135,6 +148,15 @@ class World:
     def basis(self):
         return [self.obj[s] for s in SHELLS]
 
+    def inst(self, f):
+        """The long-lived object behind an inst_ function (dropped when a shell object is replaced)."""
+        if not hasattr(self, "_inst"):
+            self._inst = {}
+        if f not in self._inst:
+            modname, clsname = INST[f]
+            self._inst[f] = getattr(self.gb.mod(modname), clsname)(self.basis())
+        return self._inst[f]
+
     # ---- value identity ----------------------------------------------------------------------
     def _id(self, kind, blob):
         """Content identity as a string; the parent process turns the strings of ALL behaviours into small integers."""
@@ -192,6 +214,13 @@ class World:
         table = {
             "overlap": lambda: m("gbasis.integrals.overlap").overlap_integral(b),
             "overlap_screened": lambda: m("gbasis.integrals.overlap").overlap_integral(b, tol_screen=1e-3),
+            "inst_overlap": lambda: self.inst(f).construct_array_mix([s_.coord_type for s_ in b]),
+            "inst_kinetic": lambda: self.inst(f).construct_array_mix([s_.coord_type for s_ in b]),
+            "inst_momentum": lambda: self.inst(f).construct_array_mix([s_.coord_type for s_ in b]),
+            "inst_angmom": lambda: self.inst(f).construct_array_mix([s_.coord_type for s_ in b]),
+            "inst_moment": lambda: self.inst(f).construct_array_mix([s_.coord_type for s_ in b], moment_coord=o["ORG"], moment_orders=o["ORD"].reshape(1, 3)),
+            "inst_point_charge": lambda: self.inst(f).construct_array_mix([s_.coord_type for s_ in b], points_coords=o["NUCC"], points_charge=o["CHG"]),
+            "inst_eval_basis": lambda: self.inst(f).construct_array_mix([s_.coord_type for s_ in b], points=o["PTS"]),
             "overlap_screened0": lambda: m("gbasis.integrals.overlap").overlap_integral(b, tol_screen=0.0),
             "eval_deriv_direct1": lambda: m("gbasis.evals.eval_deriv").evaluate_deriv_basis(b, o["PT1"], np.array([1, 0, 0]), deriv_type="direct"),
             "gradient_direct1": lambda: m(D).evaluate_density_gradient(o["DM"], b, o["PT1"], deriv_type="direct"),
@@ -251,6 +280,8 @@ def shells_repr(basis):
 def execute(arg):
     """Worker: run one behaviour on fresh real objects and record the trace."""
     n, steps, seed = arg
+    import warnings
+    warnings.filterwarnings("ignore", category=RuntimeWarning)      # numpy's "divide by zero in log" under seterr(divide="warn")
     w = World(seed, 0)          # every behaviour starts from objects with the SAME values (shared value-id registry)
     if n % 2:                   # every other behaviour runs under error settings that are NOT numpy's defaults
         np.seterr(divide="ignore", over="raise", under="ignore", invalid="ignore")
@@ -289,6 +320,29 @@ def execute(arg):
             if post[s][0] == pre[s][0]:
                 continue                                   # the drawn parameters equal the current ones: not a step
             trace.append({"op": "mutate", "obj": s, "p": post[s][0], "post": post})
+        elif kind == "mutate_inplace":
+            s, p2 = st[1], st[2]
+            ex, co = w.ptab[s][p2 - 1]
+            sh = w.obj[s]
+            sh.exps[...] = ex                                # the arrays the shell holds are changed in place
+            sh.coeffs[...] = co
+            post = w.snapshot()
+            if post[s][0] == pre[s][0]:
+                continue
+            trace.append({"op": "mutate_inplace", "obj": s, "p": post[s][0], "post": post})
+        elif kind == "rebuild":
+            s = st[1]
+            old_ = w.obj[s]
+            try:
+                w.obj[s] = w.gb.Shell()(int(old_.angmom), old_.coord, old_.coeffs, old_.exps, old_.coord_type)   # same array objects
+                w._inst = {}
+                ov = w.gb.mod("gbasis.integrals.overlap").overlap_integral([w.obj[s]])
+                unit = bool(np.abs(np.diag(ov) - 1).max() <= 1e-8)
+            except Exception as exc:  # noqa: BLE001
+                unit = False
+                notes.append("rebuilding %s raised %s: %s" % (s, type(exc).__name__, exc))
+            post = w.snapshot()
+            trace.append({"op": "rebuild", "obj": s, "n": post[s][1], "unit": unit, "post": post})
         elif kind == "assign_norm":
             s = st[1]
             sh = w.obj[s]
@@ -330,6 +384,10 @@ def diagnose(ev):
         if not ev["unit"]:
             return "after assign_norm_cont() the shell %s is not unit-normalised" % ev["obj"]
         return "assign_norm_cont() on %s gave different constants than before for the same parameters" % ev["obj"]
+    if ev["op"] == "rebuild":
+        if not ev["unit"]:
+            return "a shell built from the array objects of %s (changed in place before) is not unit-normalised" % ev["obj"]
+        return "a shell built from the array objects of %s got other normalisation constants than assign_norm_cont() gives for the same parameters" % ev["obj"]
     return "driver step %s not accepted" % ev["op"]
 
 
@@ -361,8 +419,8 @@ def validate(ctx, traces):
         constants_module(d, "MC_Const", False)
         tlc.write_module(d, "TraceData", "\nRecordedTraces == %s\n" % tlc.tla_value([traces[i] for i in pending]), extends=())
         args = "[" + ", ".join("%s |-> %s" % (f, tlc.tla_value(list(a))) for f, a in FUNCS.items()) + "]"
-        body = ("\nVARIABLES val, npErr, memo, last, tid, l\nMCArgs == %s\nINSTANCE Trace_Session WITH Shells <- %s, Arrays <- %s, Lists <- %s,\n"
-                "  Funcs <- %s, ArgsOf <- MCArgs, RaisesF <- %s, MaxVersions <- %d, PopVariant <- FALSE, Traces <- RecordedTraces\n%s"
+        body = ("\nVARIABLES val, npErr, memo, last, tid, l\nMCCanon == " + canon_tla() + "\nMCArgs == %s\nINSTANCE Trace_Session WITH Shells <- %s, Arrays <- %s, Lists <- %s,\n"
+                "  Funcs <- %s, ArgsOf <- MCArgs, RaisesF <- %s, MaxVersions <- %d, PopVariant <- FALSE, Canon <- MCCanon, Traces <- RecordedTraces\n%s"
                 % (args, tlc.tla_value(set(SHELLS)), tlc.tla_value(set(ARRAYS)), tlc.tla_value(set(LISTS)),
                    tlc.tla_value(set(FUNCS)), tlc.tla_value(set(RAISES)), MAXV,
                    "ASSUME CrossHistory\n" if rounds == 1 and not cross_bad else ""))
@@ -479,6 +537,8 @@ def run(pid, tier, seed, only_case=None):
             users = [f for f in allf if f not in RAISES and s_ in FUNCS[f]]
             upd = [["mutate", s_, 2], ["assign_norm", s_]]
             behaviours.append(upd + [["call", f] for f in users])
+            behaviours.append([["call", f] for f in users] + [["mutate_inplace", s_, 3], ["assign_norm", s_]] + [["call", f] for f in users]
+                              + [["mutate_inplace", s_, 2], ["rebuild", s_]] + [["call", f] for f in users])
             behaviours.append([["call", f] for f in users] + upd + [["call", f] for f in users] + [["mutate", s_, 3]] + [["call", f] for f in users])
     out = common.pmap(execute, [(n, b, seed) for n, b in enumerate(behaviours)])
     traces = []
